@@ -67,6 +67,7 @@ def ulp32(x):
 
 class C09(Machine):
     pid = "C09"
+    shadow_generic = True
     rule = ("run = class + grid + similarity (ties, signs, asymmetric with "
             "directed=True) or generated ClimateData + 4..15 setter/read ops. "
             "Non-trivial: >= 2 setters with the invariants evaluated between "
@@ -97,7 +98,8 @@ class C09(Machine):
         "the damping product is involved (mixed precision in the code)"]
 
     def lru_configs(self, tier):
-        return ["default", "1", "off"] if tier == "thorough" else ["default"]
+        return ["default", "1", "off", "shadow"] if tier == "thorough" \
+            else ["default", "shadow"]
 
     def budget(self, tier):
         if tier == "thorough":
